@@ -149,6 +149,38 @@ def nonseekable_cases(rng, tier, ks):
     return cases
 
 
+def forward_cases(rng, tier, ks):
+    """T_C10mp_nonseekable_forward_client: clients that only read integers / nil / binary bytes, skip and ask IsEnd, on a stream
+    without seek support: values of every kind (also ext, nested containers) skipped across chunk boundaries"""
+    cases = []
+    fops = ["int:s64", "int:u8", "int:u1", "int:s32", "nil", "skip", "skip", "skip", "byte", "end"]
+    for k in ks:
+        for _ in range(60 if tier == "quick" else 600):
+            off = rng.choice([0, 1, 2, 3, 5, 7] + [max(0, k - d) for d in (1, 2, 3, 5, 9)])
+            vs = [M.rand_value(rng) for _ in range(rng.randrange(1, 6))]
+            doc = b"\xc0" * off + b"".join(M.enc_value(v, rng) for v in vs)
+            if len(doc) > 3000:
+                continue
+            ops = ["nil"] * off + [rng.choice(fops) for _ in range(len(vs) + 1)]
+            cases.append("p n%d %s %s %s" % (k, rng.choice(M.POLS), ",".join(ops), M.hx(doc)))
+            if rng.random() < 0.3 and len(doc) > 2:
+                cases.append("p n%d %s %s %s" % (k, rng.choice(M.POLS), ",".join(ops), M.hx(doc[:rng.randrange(1, len(doc))])))
+    return cases
+
+
+def small_chunk_cases(k):
+    """every GetValue width at every alignment of a small chunk (K < 8: a solid block wider than the chunk is refused)"""
+    cases = []
+    vals = [("int:u64", b"\xcf\x00\x00\x00\x00\x00\x00\x00\x01"), ("int:s64", b"\xd3\xff\xff\xff\xff\xff\xff\xff\xfe"), ("f64", b"\xcb\x3f\xf0\x00\x00\x00\x00\x00\x00"),
+            ("int:u32", b"\xce\x00\x01\x00\x01"), ("f32", b"\xca\x3f\x80\x00\x00"), ("int:u16", b"\xcd\x01\x00"), ("str", b"\xda\x00\x03abc"),
+            ("ts", b"\xd7\xff" + bytes(range(1, 9))), ("ts", b"\xc7\x0c\xff" + bytes(range(1, 13))), ("arr", b"\xdd\x00\x00\x00\x01\x05"), ("skip", b"\xcf" + bytes(8))]
+    for off in range(0, min(k, 10) + 2):
+        for op, v in vals:
+            doc = b"\xc0" * off + v + b"\x2a"
+            cases.append("p s%d TT %s%s,int:u8 %s" % (k, "nil," * off, op, M.hx(doc)))
+    return cases
+
+
 def to_p(line):
     """every case as a `p` line of harness/drv_msgpack.cpp: a sequence whose ERR answer carries the reader position after the throw"""
     t = line.split(" ")
@@ -253,48 +285,81 @@ def run_mpstream(ctx, vlib):
     classes["mpstream: reader position after the throw differs between the stream and the string reader (same error class)"] = throw_pos_differs
 
 
-    # ---- streams without seek support (kind n<K>): the model over stream_of data false predicts the real reader exactly;
-    # where the model says every SetPosition of the run stays in the cached window (nonseek_ok, T_C10mp_nonseekable_outside)
-    # the answers must be the string reader's
-    ns_differs, ns_samples, ns_nonlocal_same = 0, [], 0
+    # ---- streams without seek support (kind n<K>) and further chunk sizes through the hook (kinds s<K> / n<K>): the model run with
+    # that K over the seekable / non-seekable stream model predicts the real reader exactly; on a seekable stream with K >= 8 the
+    # answers must be the string reader's (T_C10mp_stream_equals_memory); on a non-seekable stream they are the string reader's
+    # exactly when the model says every SetPosition of the run stays in the cached window (T_C10mp_nonseekable_exact_class), and
+    # otherwise differ by a final exception only (T_C10mp_nonseekable_no_silent_difference); K < 8 replays
+    # T_C10mp_small_chunk_witness on the real reader (a solid block wider than the chunk is refused: ParsingError)
+    ns_differs, ns_samples, ns_nonlocal_same, small_k_differs = 0, [], 0, 0
+    client_classes = {}
     pool = [c for c in stream if not ("dbffffffff" in c)]
-    ns_extra = nonseekable_cases(rng, tier, sorted(impls))
-    for k, impl in sorted(impls.items()):
-        step = 1 if k == 8 else 2
-        mine = [c.replace(" s ", " n%d " % k, 1) for c in pool[::step]] + [c for c in ns_extra if c.split(" ")[1] == "n%d" % k]
-        a_ns = vlib.run_driver(impl, mine)
-        m_ns = vlib.run_driver(model, mine)
-        cls = vlib.run_driver(model, ["k" + c[1:] for c in mine])
+    quick = tier == "quick"
+    all_impls = dict(impls)
+    extra_ks = [4, 9, 16, 255, 257] if hook else []
+    for k in extra_ks:
+        all_impls[k] = vlib.build_cpp("drv_msgpack_k%d" % k, srcs, extra=["-DBITSERIALIZER_VERIF_CHUNK_SIZE=%d" % k])
+    ns_extra = nonseekable_cases(rng, tier, sorted(all_impls)) + forward_cases(rng, tier, sorted(all_impls))
+
+    def judge_kind(k, seekable, mine):
+        nonlocal evals, nontriv, ns_differs, ns_nonlocal_same, small_k_differs
+        impl = all_impls[k]
+        a_k = vlib.run_driver(impl, mine)
+        m_k = vlib.run_driver(model, mine)
+        cls = vlib.run_driver(model, ["k" + c[1:] for c in mine]) if not seekable else ["LOCAL"] * len(mine)
+        ccl = vlib.run_driver(model, ["k class " + " ".join(c.split(" ")[2:]) for c in mine]) if not seekable else ["OTHER"] * len(mine)
         ref = vlib.run_driver(impls[256], ["q m " + " ".join(c.split(" ")[2:]) for c in mine])
         evals += 3 * len(mine)
-        classes["mpstream non-seekable K=%d" % k] = len(mine)
-        for c, a, m, cl, r in zip(mine, a_ns, m_ns, cls, ref):
+        key = "mpstream %s K=%d" % ("seekable" if seekable else "non-seekable", k)
+        classes[key] = classes.get(key, 0) + len(mine)
+        for c, a, m, cl, r, cc in zip(mine, a_k, m_k, cls, ref, ccl):
             if data_len(c) > k:
                 nontriv += 1
             same = strip_pos(a) == r
+            forward = cc in ("FORWARD", "LOOKAHEAD-FREE")      # the client classes of the theorems, decided by the extracted predicates
+            if not seekable:
+                client_classes[cc] = client_classes.get(cc, 0) + 1
             if not same and not throws_only(strip_pos(a), r):
-                # T_C10mp_nonseekable_no_silent_difference: a difference may only be an exception (ParsingError / InputOutputError) that
-                # ends the run, after answers identical to the string reader's
+                # a difference may only be an exception (ParsingError / InputOutputError) that ends the run, after answers identical
+                # to the string reader's
                 if len(failing) < 20:
                     failing.append(dict(driver="mpstream", case=c, chunk=k, implementation=a, memory_reader=r, model=m, judge="FAIL",
-                                        why="SILENT DIFFERENCE on a stream without seek support: the stream reader answers %s, the string reader %s; "
-                                            "a refused seek must end in an exception (T_C10mp_nonseekable_no_silent_difference)" % (a[:160], r[:160])))
-            elif cl == "LOCAL" and not same:
+                                        why="SILENT DIFFERENCE (%s stream, chunk %d): the stream reader answers %s, the string reader %s; "
+                                            "a refused seek / block must end in an exception (T_C10mp_nonseekable_no_silent_difference)"
+                                            % ("seekable" if seekable else "non-seekable", k, a[:160], r[:160])))
+            elif not same and k >= 8 and (seekable or cl == "LOCAL" or forward):
                 if len(failing) < 20:
                     failing.append(dict(driver="mpstream", case=c, chunk=k, implementation=a, memory_reader=r, model=m, judge="FAIL",
-                                        why="non-seekable stream, every SetPosition of the run stays in the cached window (nonseek_ok), yet the stream reader answers differently from the string reader: contradicts T_C10mp_nonseekable_outside"))
+                                        why=("seekable stream, chunk %d >= 8: the stream reader answers differently from the string reader (T_C10mp_stream_equals_memory)" % k) if seekable else
+                                            "non-seekable stream, every SetPosition of the run stays in the cached window (nonseek_ok) or the client only reads and skips forward, yet the stream reader answers differently from the string reader: contradicts T_C10mp_nonseekable_exact_class / T_C10mp_nonseekable_forward_client / T_C10mp_nonseekable_lookahead_client"))
             elif a != m:
                 if len(diffs) < 20:
                     diffs.append(dict(driver="mpstream", case=c, chunk=k, implementation=a, memory_reader=r, model=m, judge="DIFF",
-                                      why="the stream-reader model over the non-seekable stream model disagrees with the real stream reader on a streambuf without seek support"))
+                                      why="the stream-reader model over the %s stream model with chunk size %d disagrees with the real stream reader built with that chunk size"
+                                          % ("seekable" if seekable else "non-seekable", k)))
+            elif not same and k < 8:
+                small_k_differs += 1
             elif not same:
                 ns_differs += 1
                 if len(ns_samples) < 4:
                     ns_samples.append(dict(case=c, chunk=k, stream_reader=a, memory_reader=r))
-            elif cl != "LOCAL":
+            elif cl != "LOCAL" or (forward and cl != "LOCAL"):
                 ns_nonlocal_same += 1
+                if k >= 8 and len(diffs) < 20:
+                    diffs.append(dict(driver="mpstream", case=c, chunk=k, implementation=a, memory_reader=r, model=m, judge="DIFF",
+                                      why="the model classes the run NONLOCAL but the answers are the string reader's: contradicts T_C10mp_nonseekable_exact_class"))
+
+    for k in sorted(all_impls):
+        step = 1 if k == 8 else (2 if k == 256 else (10 if quick else 3))
+        ns = [c.replace(" s ", " n%d " % k, 1) for c in pool[::step]] + [c for c in ns_extra if c.split(" ")[1] == "n%d" % k]
+        judge_kind(k, False, ns)
+        if k in extra_ks:
+            judge_kind(k, True, [c.replace(" s ", " s%d " % k, 1) for c in pool[::step]] + small_chunk_cases(k))
     classes["mpstream non-seekable: the run ends in InputOutputError where memory loading goes on (a backward SetPosition left the cached window: F16b at the MsgPack level; answers before it identical)"] = ns_differs
     classes["mpstream non-seekable: a SetPosition left the window but the answers are the same"] = ns_nonlocal_same
+    for cc, n in client_classes.items():
+        classes["mpstream non-seekable client class %s" % cc] = n
+    classes["mpstream chunk size 4 (< 8): the run ends in ParsingError where memory loading goes on (GetValue wider than the chunk: T_C10mp_small_chunk_witness replayed)"] = small_k_differs
 
     known_lines = []
     kn = [x for x in vlib.load_known("C10") if x.get("status") == "known" and x.get("driver") == "mpstream"]
@@ -312,8 +377,8 @@ def run_mpstream(ctx, vlib):
     samples = [dict(case=stream[i][:300], implementation=a_mem[i][:300], model=om[i][:300]) for i in (0, len(stream) // 2, len(stream) - 1)]
     return dict(evaluations=evals, distinct_nontrivial=nontriv, failing=failing, diffs=diffs, classes=classes, known_lines=known_lines,
                 samples=samples, hook=hook, chunk_sizes=sorted(impls), throw_position_differs=throw_pos_differs, throw_position_samples=throw_pos_samples,
-                nonseekable_differs=ns_differs, nonseekable_samples=ns_samples, nonseekable_nonlocal_same=ns_nonlocal_same,
-                rule="extracted CMsgPackStreamReader model (run on the in-memory reader and on the chunked reader model, K = 8 and 256) vs the real stream reader built with chunk_size 256 and 8 (answers AND the reader position after a throw) vs the real string reader (answers), same case lines: one value of every format family and width behind a leading fixstr of every length 0..9 (0..17 thorough) so that every header / length field / ext type byte / payload lies on every alignment of an 8-byte chunk, read by the matching op, skip, type and a random op under both policies; every truncation of those; random documents x random op sequences with truncations and corruptions; strings / binaries / arrays of 7..100 units read through ReadByChunks and element-wise; plus the generators of C07/C10 (every first byte x tails x every op, documents shifted across the 256-byte boundary); non-trivial = distinct (case, K) whose document is longer than one chunk or that seeks (skip / ts / type)",
+                nonseekable_differs=ns_differs, nonseekable_samples=ns_samples, nonseekable_nonlocal_same=ns_nonlocal_same, small_chunk_differs=small_k_differs, all_chunk_sizes=sorted(all_impls),
+                rule="extracted CMsgPackStreamReader model (run on the in-memory reader and on the chunked reader model, K = 8 and 256) vs the real stream reader built with chunk_size 256 and 8 (answers AND the reader position after a throw) vs the real string reader (answers), same case lines: one value of every format family and width behind a leading fixstr of every length 0..9 (0..17 thorough) so that every header / length field / ext type byte / payload lies on every alignment of an 8-byte chunk, read by the matching op, skip, type and a random op under both policies; every truncation of those; random documents x random op sequences with truncations and corruptions; strings / binaries / arrays of 7..100 units read through ReadByChunks and element-wise; plus the generators of C07/C10 (every first byte x tails x every op, documents shifted across the 256-byte boundary); the same cases and the four seek sites / forward-only clients (integers, nil, binary bytes, skips of every kind of value across chunk ends, IsEnd) on a streambuf WITHOUT seek support and on seekable streams with chunk_size 4, 9, 16, 255, 257 through the hook (model run with that K; K = 4 replays T_C10mp_small_chunk_witness on the real reader); client classes FORWARD / LOOKAHEAD-FREE and LOCAL / NONLOCAL decided by the extracted predicates of the theorems; non-trivial = distinct (case, K) whose document is longer than one chunk or that seeks (skip / ts / type)",
                 broken="correspondence MsgPack stream-reader model (coq/MpStreamModel.v) vs CMsgPackStreamReader (drv_msgpack kind s)")
 
 
